@@ -388,6 +388,147 @@ def emitted_skeleton(ir, ppci2wasm, relooper, terms):
     return out
 
 
+# ---- end-to-end for control flow: a function whose result encodes the block trace
+def traced_module(ir, terms):
+    """i32 f(i32 a): every block i does n += 1; acc = acc*31 + (i+1); a branch block takes `yes` when bit
+    (n mod 32) of a is set; a return block returns acc.  So the result is a hash of the executed block trace and the
+    argument is the branch oracle."""
+    m = ir.Module('t')
+    f = ir.Function('f', ir.Binding.GLOBAL, ir.i32)
+    m.add_function(f)
+    a = ir.Parameter('a', ir.i32)
+    f.add_parameter(a)
+    entry = ir.Block('entry')
+    f.add_block(entry)
+    f.entry = entry
+    blocks = [ir.Block('b%d' % i) for i in range(len(terms))]
+    for b in blocks:
+        f.add_block(b)
+
+    def emit(blk, ins):
+        blk.add_instruction(ins)
+        return ins
+    al = emit(entry, ir.Alloc('slot', 8, 4))
+    pacc = emit(entry, ir.AddressOf(al, 'pacc'))
+    four = emit(entry, ir.Const(4, 'four', ir.ptr))
+    pn = emit(entry, ir.Binop(pacc, '+', four, 'pn', ir.ptr))
+    zero = emit(entry, ir.Const(0, 'zero', ir.i32))
+    emit(entry, ir.Store(zero, pacc))
+    emit(entry, ir.Store(zero, pn))
+    emit(entry, ir.Jump(blocks[0]))
+    for i, (b, t) in enumerate(zip(blocks, terms)):
+        acc = emit(b, ir.Load(pacc, 'acc%d' % i, ir.i32))
+        n = emit(b, ir.Load(pn, 'n%d' % i, ir.i32))
+        c31 = emit(b, ir.Const(31, 'k31_%d' % i, ir.i32))
+        cid = emit(b, ir.Const(i + 1, 'id%d' % i, ir.i32))
+        one = emit(b, ir.Const(1, 'one%d' % i, ir.i32))
+        m1 = emit(b, ir.Binop(acc, '*', c31, 'm%d' % i, ir.i32))
+        acc2 = emit(b, ir.Binop(m1, '+', cid, 'x%d' % i, ir.i32))
+        n2 = emit(b, ir.Binop(n, '+', one, 'y%d' % i, ir.i32))
+        emit(b, ir.Store(acc2, pacc))
+        emit(b, ir.Store(n2, pn))
+        if t[0] == 'r':
+            emit(b, ir.Return(acc2))
+        elif t[0] == 'j':
+            emit(b, ir.Jump(blocks[t[1]]))
+        else:
+            sh = emit(b, ir.Binop(n2, '&', c31, 's%d' % i, ir.i32))
+            v = emit(b, ir.Binop(a, '>>', sh, 'v%d' % i, ir.i32))
+            bit = emit(b, ir.Binop(v, '&', one, 'bit%d' % i, ir.i32))
+            z = emit(b, ir.Const(0, 'z%d' % i, ir.i32))
+            emit(b, ir.CJump(bit, '!=', z, blocks[t[1]], blocks[t[2]]))
+    return m
+
+
+def traced_reference(terms, a, limit=400):
+    au = a & 0xFFFFFFFF
+
+    def orc(nvisited):
+        return bool((au >> (nvisited & 31)) & 1)
+    hist, end = cfg_trace(terms, orc, limit)
+    if end != 'halt':
+        return None, hist
+    acc = 0
+    for b in hist:
+        acc = (acc * 31 + b + 1) & 0xFFFFFFFF
+    return acc, hist
+
+
+def stage_e2e_cfg(ctx):
+    """control flow end to end: structured CFGs with breaks/continues under nested ifs (deep br labels), compiled
+    with ir_to_wasm, run on the python wasm target; the result must be the hash of the CFG walk"""
+    ir, R, ppci2wasm, components = _ppci()
+    from ppci.wasm import instantiate
+    ncfg = 150 if ctx.quick() else 1500
+    stats = {'cfgs': 0, 'compiled': 0, 'rejected': {}, 'runs': 0, 'nonterminating_skipped': 0, 'max_br_depth': 0}
+    seen = set()
+    tries = 0
+    # CFGs on which a wrong br depth of a break/continue is observable (most breaks of the shapes the relooper
+    # produces are followed by a copy of the same continuation, which masks a label that is one too large)
+    fixed = [(('b', 3, 1), ('b', 1, 2), ('r',), ('b', 0, 2)),
+             (('b', 6, 0), ('r',), ('b', 7, 3), ('j', 6), ('b', 5, 3), ('b', 1, 4), ('b', 2, 4), ('r',)),
+             (('b', 0, 4), ('r',), ('b', 1, 2), ('b', 3, 1), ('b', 3, 2)),
+             (('j', 1), ('b', 2, 3), ('j', 1), ('r',)), (('b', 1, 3), ('b', 2, 3), ('j', 1), ('r',))]
+    while stats['cfgs'] < ncfg and tries < 20 * ncfg:
+        tries += 1
+        if fixed:
+            terms = fixed.pop(0)
+        elif tries % 2:
+            terms = structured_terms(ctx.rng, 8 + ctx.rng.randrange(8))
+        else:
+            terms = random_terms(ctx.rng, ctx.rng.randrange(4, 9))
+        if terms in seen or len(terms) < 4 or not any(t[0] == 'b' for t in terms):
+            continue
+        seen.add(terms)
+        stats['cfgs'] += 1
+        m = traced_module(ir, terms)
+        try:
+            w = compile_module(m)
+        except Exception as ex:
+            k = type(ex).__name__
+            stats['rejected'][k] = stats['rejected'].get(k, 0) + 1
+            continue
+        fn = [d for d in w.definitions if type(d).__name__ == 'Func'][0]
+        for i_ in fn.instructions:
+            if i_.opcode == 'br':
+                stats['max_br_depth'] = max(stats['max_br_depth'], i_.args[0].index)
+        try:
+            with quiet():
+                inst = instantiate(w, {}, target='python')
+        except Exception as ex:
+            ctx.violation({'fn': 'ir_to_wasm.cfg', 'key': 'cfg-invalid-module', 'cfg': repr(terms), 'error': repr(ex)[:300],
+                           'what': 'ir_to_wasm output cannot be instantiated',
+                           'how_to_replay': 'tools/props/c23.traced_module(ir, cfg) -> ir_to_wasm -> instantiate(python)'})
+            continue
+        stats['compiled'] += 1
+        args = [0, -1, 0x55555555, -0x55555556, 0x0F0F0F0F] + [ctx.rng.randrange(-2 ** 31, 2 ** 31) for _ in range(5)]
+        for a in args:
+            want, hist = traced_reference(terms, a)
+            if want is None:
+                stats['nonterminating_skipped'] += 1
+                continue
+            try:
+                with quiet():
+                    with time_limit(5):
+                        got = inst.exports.f(a)
+            except Exception as ex:
+                got = 'trap %s' % type(ex).__name__
+            stats['runs'] += 1
+            if not isinstance(got, int) or (got - want) % (1 << 32) != 0:
+                ctx.violation({'fn': 'ir_to_wasm.cfg', 'key': 'cfg-trace', 'cfg': repr(terms), 'args': [a],
+                               'expected': want, 'actual': got, 'cfg_trace': hist,
+                               'what': 'the compiled function does not follow the CFG walk (result = hash of the block trace)',
+                               'how_to_replay': 'tools/props/c23.traced_module(ir, cfg) -> ir_to_wasm -> '
+                                                'instantiate(python).exports.f(a); reference traced_reference(cfg, a)'})
+                break
+    ctx.cov['programs'] = ctx.cov.get('programs', 0) + stats['cfgs']
+    ctx.cov['disagreements_checked'] = ctx.cov.get('disagreements_checked', 0) + stats['runs']
+    ctx.cov['evaluations'] += stats['runs']
+    ctx.cov['distinct_nontrivial'] += stats['compiled']
+    ctx.cov['stages']['e2e_cfg'] = stats
+    ctx.note_sample({'e2e_cfg': stats})
+
+
 # ------------------------------------------------------------------ operator table (tie I)
 TYS = ['i8', 'i16', 'i32', 'i64', 'u8', 'u16', 'u32', 'u64', 'ptr']
 TYC = {'i8': 'I8', 'i16': 'I16', 'i32': 'I32', 'i64': 'I64', 'u8': 'U8', 'u16': 'U16', 'u32': 'U32', 'u64': 'U64',
@@ -456,6 +597,46 @@ def func_opcodes(w):
     return [i.opcode for i in fn.instructions]
 
 
+def func_instrs(w):
+    fn = [d for d in w.definitions if type(d).__name__ == 'Func'][0]
+    return [(i.opcode, tuple(i.args)) for i in fn.instructions]
+
+
+POSTS = {(): 'PNone',
+         (('i32.const', 24), ('i32.shl', None), ('i32.const', 24), ('i32.shr_s', None)): 'PSext8',
+         (('i32.const', 16), ('i32.shl', None), ('i32.const', 16), ('i32.shr_s', None)): 'PSext16',
+         (('i32.const', 255), ('i32.and', None)): 'PMask8',
+         (('i32.const', 65535), ('i32.and', None)): 'PMask16',
+         (('i64.const', 4294967295), ('i64.and', None)): 'PMask32'}
+
+
+def post_of(instrs, what):
+    key = tuple((o, (a[0] if a else None)) for o, a in instrs)
+    if key not in POSTS:
+        raise TieBroken('unexpected re-wrapping code for %s: %r' % (what, instrs))
+    return POSTS[key]
+
+
+def cast_module(ir, fromname, toname):
+    tf, tt = irty(ir, fromname), irty(ir, toname)
+    m = ir.Module('m')
+    f = ir.Function('f', ir.Binding.GLOBAL, tt)
+    m.add_function(f)
+    a = ir.Parameter('a', tf)
+    f.add_parameter(a)
+    blk = ir.Block('e')
+    f.add_block(blk)
+    f.entry = blk
+    r = ir.Cast(a, 'r', tt)
+    blk.add_instruction(r)
+    blk.add_instruction(ir.Return(r))
+    return m
+
+
+CONVS = {'i32.wrap_i64': 'CvWrap', 'i64.extend_i32_s': 'CvExtS', 'i64.extend_i32_u': 'CvExtU'}
+ITYS = ['i8', 'i16', 'i32', 'i64', 'u8', 'u16', 'u32', 'u64']
+
+
 def wop_term(opcode, table, ctor):
     w, name = opcode.split('.')
     return '(%s %s %s)' % (ctor, {'i32': 'W32', 'i64': 'W64'}[w], table[name])
@@ -463,18 +644,20 @@ def wop_term(opcode, table, ctor):
 
 def export_tables(ctx):
     ir, relooper, ppci2wasm, components = _ppci()
-    rows, crows, rejected = [], [], []
+    rows, crows, rejected, prows, castrows = [], [], [], [], []
     bmap = ppci2wasm.IrToWasmCompiler.binop_map
     for tyname in TYS:
         for op in OPC:
             try:
-                ops = func_opcodes(compile_module(binop_module(ir, op, tyname)))
+                ins = func_instrs(compile_module(binop_module(ir, op, tyname)))
             except Exception as ex:      # rejected (NotImplementedError / KeyError): no row
                 rejected.append((op, tyname, type(ex).__name__))
                 continue
-            arith = [o for o in ops if o not in ('local.get', 'local.set', 'return')]
-            if len(arith) != 1 or arith[0].split('.')[1] not in WBIN:
-                raise TieBroken('unexpected code for %s %s: %r' % (op, tyname, ops))
+            body = [(o, a) for o, a in ins if o not in ('local.get', 'local.set', 'return')]
+            arith = [o for o, a in body]
+            if not arith or arith[0].split('.')[1] not in WBIN:
+                raise TieBroken('unexpected code for %s %s: %r' % (op, tyname, ins))
+            prows.append((op, tyname, post_of(body[1:], '%s %s' % (op, tyname))))
             # cross-check with the declarative table (ptr is selected as i32)
             key = {'+': 'ADD', '-': 'SUB', '*': 'MUL', '/': 'DIV', '%': 'REM', '|': 'OR', '&': 'AND', '^': 'XOR',
                    '<<': 'SHL', '>>': 'SHR'}.get(op, op.upper()) + ('I32' if tyname == 'ptr' else tyname.upper())
@@ -491,17 +674,37 @@ def export_tables(ctx):
             if len(rel) != 1:
                 raise TieBroken('unexpected compare code for %s %s: %r' % (cond, tyname, ops))
             crows.append((cond, tyname, rel[0]))
+    for fr in ITYS:
+        for to in ITYS:
+            try:
+                ins = func_instrs(compile_module(cast_module(ir, fr, to)))
+            except Exception as ex:
+                rejected.append(('cast', fr + '->' + to, type(ex).__name__))
+                continue
+            body = [(o, a) for o, a in ins if o not in ('local.get', 'local.set', 'return')]
+            cv = 'CvNone'
+            if body and body[0][0] in CONVS:
+                cv = CONVS[body[0][0]]
+                body = body[1:]
+            castrows.append((fr, to, cv, post_of(body, 'cast %s->%s' % (fr, to))))
     text = ['(* generated by tools/props/c23.py from ppci/wasm/ppci2wasm.py (compiled one-instruction functions) *)',
             'From Coq Require Import List.', 'Import ListNotations.',
-            'From PV Require Import Spec.IRSyntax Spec.WasmNumSpec.',
+            'From PV Require Import Spec.IRSyntax Spec.WasmNumSpec Model.Ir2WasmPost.',
             'Definition optable : list (IRSyntax.binop * ty * wop) := [']
     text.append(';\n'.join('  (IRSyntax.%s, %s, %s)' % (OPC[o], TYC[t], wop_term(w, WBIN, 'Bin')) for o, t, w in rows))
     text.append('].')
     text.append('Definition cmptable : list (cond * ty * wop) := [')
     text.append(';\n'.join('  (%s, %s, %s)' % (CONDC[c], TYC[t], wop_term(w, WREL, 'Rel')) for c, t, w in crows))
     text.append('].')
+    text.append('Definition posttable : list (IRSyntax.binop * ty * post) := [')
+    text.append(';\n'.join('  (IRSyntax.%s, %s, %s)' % (OPC[o], TYC[t], p) for o, t, p in prows))
+    text.append('].')
+    text.append('Definition casttable : list (ty * ty * conv * post) := [')
+    text.append(';\n'.join('  (%s, %s, %s, %s)' % (TYC[f], TYC[t], cv, p) for f, t, cv, p in castrows))
+    text.append('].')
     ctx.write_gen('Tab_ir2wasm', '\n'.join(text) + '\n')
-    ctx.cov['stages']['op_table'] = {'rows': len(rows), 'cmp_rows': len(crows), 'rejected': len(rejected)}
+    ctx.cov['stages']['op_table'] = {'rows': len(rows), 'cmp_rows': len(crows), 'cast_rows': len(castrows),
+                                     'rewrapped_rows': sum(1 for r in prows if r[2] != 'PNone'), 'rejected': len(rejected)}
     return rows, crows, rejected
 
 
@@ -564,11 +767,13 @@ def stage_shapes(ctx):
             recs.append((stage, terms, shape_text(R, shape, idx), mis))
             if mis is not None:
                 (wrong_det if stage == 'det' else wrong_rnd).append((terms, shape_text(R, shape, idx), mis))
-            elif len(skel_cases) < (150 if ctx.quick() else 600) and len(terms) >= 2 \
+            elif len(skel_cases) < (300 if ctx.quick() else 1200) and len(terms) >= 2 \
                     and len(reachable(terms)) == len(terms) and (stage == 'rnd' or len(terms) >= 3):
                 try:
                     sk = emitted_skeleton(ir, ppci2wasm, R, terms)
                     skel_cases.append(('map ctl_code (do_shape [] (%s)%%nat)' % shape_to_coq(R, shape, idx), sk))
+                    skel_cases.append(('match compile [] (%s)%%nat with Some c => map ctl_code (flat c) | None => [(-99)%%Z] end'
+                                       % shape_to_coq(R, shape, idx), sk))
                 except Exception as ex:       # ir_to_wasm rejects (assert / NotImplementedError): allowed
                     k = 'ir_to_wasm_rejects_' + type(ex).__name__
                     rejected[k] = rejected.get(k, 0) + 1
@@ -618,7 +823,7 @@ def stage_shapes(ctx):
                            'how_to_replay': 'tools/props/c23.build_function(ir, cfg); StructureDetector().detect; check_shape'})
     # ---- do_shape control skeleton (labels!) against the model
     if skel_cases:
-        sbad = ctx.run_cases('skeleton', ['Spec.StructSpec', 'Model.ShapeCheck'], skel_cases)
+        sbad = ctx.run_cases('skeleton', ['Spec.StructSpec', 'Spec.WasmCtlSpec', 'Model.ShapeCheck', 'Model.ShapeCompile'], skel_cases)
         if sbad:
             ctx.failed_stages.append(('do_shape_tie', 'Model.ShapeCheck.do_shape differs from the emitted control skeleton, '
                                       'first: %s' % skel_cases[sbad[0]][0]))
@@ -723,6 +928,68 @@ def stage_ops(ctx, rows, crows):
     ctx.cov['stages']['ops_executed'] = {'evaluations': n, 'rows_with_known_mismatch': mism_known}
 
 
+# ------------------------------------------------------------------ stage: casts executed + table status
+def stage_casts(ctx):
+    """which tree is this (re-wrapping complete? cast rows not proved?) from the Coq side, and every compiled cast
+    executed on boundary values against irsem_py"""
+    ir, R, ppci2wasm, components = _ppci()
+    import irsem_py
+    from ppci.wasm import instantiate
+    out = ctx.eval_terms('tables', ['Proofs.C23_table2', 'Model.Ir2WasmPost'],
+                         ['rewrap_complete', 'Z.of_nat (List.length cast_bad_rows)'])
+    import re
+    vals = re.findall(r'=\s*(VBool\s+\w+|VInt\s+\(?-?\d+\)?|[^\n]+)', out)
+    complete = 'true' in (vals[0] if vals else '')
+    nbad = int(re.findall(r'-?\d+', vals[1])[0]) if len(vals) > 1 and re.findall(r'-?\d+', vals[1]) else -1
+    ctx.cov['stages']['tables_status'] = {'rewrap_complete': complete, 'cast_rows_not_proved': nbad}
+    cfg = (4, 1000, 1 << 20)
+    tybits = {'i8': (8, True), 'i16': (16, True), 'i32': (32, True), 'i64': (64, True), 'u8': (8, False),
+              'u16': (16, False), 'u32': (32, False), 'u64': (64, False)}
+    n = 0
+    for fr in ITYS:
+        for to in ITYS:
+            m = cast_module(ir, fr, to)
+            try:
+                with quiet():
+                    inst = instantiate(compile_module(m), {}, target='python')
+            except Exception:
+                continue
+            fb, fs = tybits[fr]
+            tb, ts = tybits[to]
+            wf = 64 if fr in ('u32', 'i64', 'u64') else 32
+            wt = 64 if to in ('u32', 'i64', 'u64') else 32
+            first = None
+            for a in boundary(fb, fs):
+                ref = irsem_py.run_main(m, 'f', [a], 50, cfg)
+                if not isinstance(ref, OkV):
+                    continue
+                want = ref.v[0]
+                v = a & ((1 << wf) - 1)
+                v = v - (1 << wf) if v >> (wf - 1) else v
+                try:
+                    with quiet():
+                        with time_limit(5):
+                            got = inst.exports.f(v)
+                except Exception as ex:
+                    got = 'trap %s' % type(ex).__name__
+                n += 1
+                if not isinstance(got, int) or (got - want) % (1 << wt) != 0:
+                    first = first or (a, want, got)
+            if first is not None:
+                a, want, got = first
+                same = tb == fb
+                cls = ('same-size-sign-cast-elided' if same and fr != to else
+                       'i32-to-u64-zero-extends' if (fr, to) == ('i32', 'u64') else
+                       'narrowing-cast-not-rewrapped' if not complete else 'cast-wrong')
+                ctx.violation({'fn': 'ir_to_wasm.cast', 'key': 'cast %s->%s' % (fr, to), 'from': fr, 'to': to, 'class': cls,
+                               'args': [a], 'expected': want, 'actual': got,
+                               'how_to_replay': 'tools/props/c23.cast_module(ir, %r, %r) -> ir_to_wasm -> '
+                                                'instantiate(python).exports.f' % (fr, to)})
+    ctx.cov['evaluations'] += n
+    ctx.cov['disagreements_checked'] = ctx.cov.get('disagreements_checked', 0) + n
+    ctx.cov['stages']['casts_executed'] = n
+
+
 # ------------------------------------------------------------------ stage: data segments
 def stage_data(ctx):
     ir, R, ppci2wasm, components = _ppci()
@@ -819,9 +1086,12 @@ def stage_e2e(ctx, relooper_known):
     from ppci.wasm import instantiate
     saved = irgen.INT_TYPES
     # u64 is left out too: CONSTU64 >= 2^63 is emitted as an out-of-range i64.const (python target: struct.error)
-    irgen.INT_TYPES = [ir.i32, ir.i64, ir.i32, ir.i64]       # sub-word/u32 arithmetic is a recorded finding (stage ops)
+    irgen.INT_TYPES = [ir.i32, ir.i64, ir.i32, ir.i64]
+    if ctx.cov['stages'].get('tables_status', {}).get('rewrap_complete'):
+        # narrow arithmetic is re-wrapped in this tree (fixes/C23-rewrap-narrow.diff): it must agree end to end
+        irgen.INT_TYPES = [ir.i8, ir.i16, ir.i32, ir.i64, ir.u8, ir.u16, ir.u32]       # sub-word/u32 arithmetic is a recorded finding (stage ops)
     cfg = (4, 1000, 1 << 20)
-    nmods = 36 if ctx.quick() else 600
+    nmods = 50 if ctx.quick() else 600
     stats = {'modules': 0, 'compiled': 0, 'rejected': {}, 'runs': 0, 'compared': 0, 'ir_undefined': 0}
     try:
         for k in range(nmods):
@@ -900,8 +1170,10 @@ def search(ctx):
     rows, crows, _ = regen(ctx)
     known = stage_shapes(ctx)
     stage_ops(ctx, rows, crows)
+    stage_casts(ctx)
     stage_data(ctx)
     stage_e2e(ctx, known)
+    stage_e2e_cfg(ctx)
 
 
 def run(ctx):
@@ -911,10 +1183,11 @@ def run(ctx):
     except TieBroken as ex:
         ctx.failed_stages.append(('tie', str(ex)))
         rows, crows = [], []
-    ok, _ = ctx.build(['Proofs/C23_shape.vo', 'Proofs/C23_ops.vo', 'Proofs/C23_data.vo', 'Proofs/C23_table.vo'])
+    ok, _ = ctx.build(['Proofs/C23_shape.vo', 'Proofs/C23_ops.vo', 'Proofs/C23_data.vo', 'Proofs/C23_table.vo', 'Proofs/C23_doshape.vo',
+                       'Proofs/C23_post.vo', 'Proofs/C23_table2.vo'])
     if ok:
         ctx.check_props('Props/C23.v')
-    ctx.build(['Model/ShapeCheck.vo', 'Model/Ir2WasmOps.vo', 'Lib/Val.vo'])
+    ctx.build(['Model/ShapeCheck.vo', 'Model/ShapeCompile.vo', 'Model/Ir2WasmOps.vo', 'Lib/Val.vo'])
     import time
     t0 = time.time()
     known = stage_shapes(ctx)
@@ -922,9 +1195,11 @@ def run(ctx):
     if rows:
         stage_ops(ctx, rows, crows)
     t2 = time.time()
+    stage_casts(ctx)
     stage_data(ctx)
     t3 = time.time()
     stage_e2e(ctx, known)
+    stage_e2e_cfg(ctx)
     t4 = time.time()
     ctx.cov['stages']['wall_s'] = {'shapes': round(t1 - t0, 1), 'ops': round(t2 - t1, 1), 'data': round(t3 - t2, 1),
                                    'e2e': round(t4 - t3, 1)}
